@@ -61,6 +61,21 @@ chk(
     "DESIGN.md 4 C19",
 )
 
+chk(
+    "C16",
+    "bounded-exhaustive libraries x all block-type orders + seeded Hypothesis; invariant oracle (permutation, stable order, comment-run adjacency, no mutation/aliasing)",
+    "Exploration: every library of <= 3 blocks over a 7-block sub-universe x all 326 sub-permutations of the five block types (+ default) x both comment modes, length 4 with a stride over the orders (all orders in the thorough tier), and random libraries of up to 16 blocks from a 16-block universe (equal keys across types, empty keys, failed, duplicate-key and duplicate-field blocks, leading/trailing comment runs) are checked with predicates written from the statement: permutation of canonical forms, non-decreasing (type rank, key) with stable ties, each comment run still directly above its block, trailing run contiguous and placed by its class rank, input canonically unchanged and identity-disjoint from the output.",
+    "Trusted: canon()/mutable_ids() helpers; unique start lines as identity tags. Placement of mixed-class trailing comment runs not asserted.",
+    "DESIGN.md 4 C16",
+)
+chk(
+    "C17",
+    "bounded-exhaustive key tuples x all custom orders + seeded Hypothesis; invariant oracle (permutation, sort-key monotonicity, stability, last-wins reference, idempotence)",
+    "Exploration: every entry of 0..4 (quick) / 0..5 (thorough) fields over the colliding key pool {a, A, b, B, ab, Ab, c} x alphabetical sorting, key normalisation and every custom order (all 206 permutations of subsets <= 4 of {a, A, b, B, c}) x case-sensitive/insensitive x in-place/copy, plus random entries of up to 8 fields with further keys; checked for: exactly the input fields once each, non-decreasing sort keys with stable ties, normalisation = first-occurrence order with last-occurrence value, untouched entry type/key/raw/start line and neighbouring blocks, idempotence, and the constructor rejecting exactly the orders with duplicates after folding.",
+    "Trusted: the predicates in pbt/props/C17.py; distinct field values as identity tags.",
+    "DESIGN.md 4 C17",
+)
+
 ALL = ["C%02d" % i for i in range(1, 21)]
 NOT_YET = "check not built yet in this revision of /verif (see DESIGN.md section 4 for its design); not claimed"
 
